@@ -20,10 +20,16 @@
 // comment; every dash placement) repeated k times for EVERY k up to 700 (thorough 3000), also behind a
 // short lead of plain print tags and followed by literal padding, each rendering starting from empty
 // pools: the output is k copies of what the unit renders as a whole template.
+//
+// Quoted-comment bases (comments.go) go through part A as well: comments whose body holds quotes,
+// apostrophes, backslashes, delimiter look-alikes or dashes. Part E (names.go, many names): templates of
+// N plain print tags with N distinct names for N up to 8000 (thorough 20000), one after the other in one
+// process, then everyday templates with new names padded across the thresholds.
 package main
 
 import (
 	"fmt"
+	"os"
 	"strings"
 
 	"github.com/semihalev/twig"
@@ -350,7 +356,11 @@ func runPad(t *vlib.T) {
 	for _, b := range corpus {
 		for fi, f := range fills {
 			texts := b.fillUniform(0, f.wa, f.wb)
-			for _, mask := range bits(uint(2 * len(b.tagIdx()))) {
+			masks := bits(uint(2 * len(b.tagIdx())))
+			if !t.Thorough() && undashedInQuick[b.name] {
+				masks = masks[:1] // the quoted-comment bases: dash variants in the thorough tier only
+			}
+			for _, mask := range masks {
 				_, d := b.pieces(texts, mask)
 				pts := b.points(texts, d)
 				choices := make([][]int, 0, len(pts)+1)
@@ -496,19 +506,22 @@ func main() {
 	vlib.Main(vlib.Spec{
 		ID:    "C14",
 		Level: "exploration",
-		Rule: "A: every corpus template (every tag kind; 44 expression templates; 13 templates with a comment inside a verbatim body or directly next to a (dashed) delimiter with whitespace text on its other side) x {no dash, each single dash, all dashes} x every admissible insertion point (and all at once) x padding kind " +
+		Rule: "A: every corpus template (every tag kind; 44 expression templates; 13 templates with a comment inside a verbatim body or directly next to a (dashed) delimiter with whitespace text on its other side; 84 templates with a comment whose body holds quotes, apostrophes, backslashes, delimiter look-alikes or dashes (14 bodies), alone, between texts, before a print tag, before a print tag with string literals, before another comment, between texts with quotes - undashed in the quick tier) x {no dash, each single dash, all dashes} x every admissible insertion point (and all at once) x padding kind " +
 			"(literal text, one long comment, many short comments, multi-byte text with line breaks, alternating text and comments) x every total length around 1 KiB, 4 KiB (tokenizer switch), 20 KiB, 64 KiB, 100 KiB and 300 KB, " +
 			"compared with the unpadded rendering plus the visible padding; non-trivial = the template has a dash or more than one tag or an operator expression. " +
 			"B: every sequence of at most 5 (thorough 6) pieces of {{ }} {% %} {# #} - space a \\ { } 'if x' endif LF, bare vs behind 4100 bytes; non-trivial = the source contains a tag opener. " +
 			"C: every sequence of at most 5 whole tags of {{ a }} {{- a }} {{ a -}} {# c #} space x LF {% if x %} {%- if x -%} {% endif %} {%- endif -%} {% verbatim %} {% endverbatim %}, bare vs behind 4100 bytes; non-trivial = at least two pieces, one of them a tag. " +
 			"D: every unit of {p LF {{ a }} LF q and {{ a }} with each of the 4 dash placements; p LF {{- a }} and {{ a -}} LF q (thorough: all 4 placements of both); p {% if x %} y {% endif %} q with 7 (thorough: all 16) dash placements; {# c #} alone, between texts, before {{- a }}; a for block all dashed (thorough: also undashed)} " +
 			"repeated k times for every k = 1..700 (thorough 1..3000), alone and followed by 997 or 4099 (thorough: 997 up to k = 700, 4099 up to k = 1500, 20011 up to k = 2000) bytes of literal text, and for every k = 1..300 (thorough 1..500) behind each of 6 (thorough 11) leads of plain print tags and text that shift the token positions by 3..9 (3..14); " +
-			"every rendering starts from empty pools; the output must be the lead's output, k copies of the unit's own output as a whole template, and the padding; one case = 50 consecutive k; non-trivial = the case contains a k >= 2",
+			"every rendering starts from empty pools; the output must be the lead's output, k copies of the unit's own output as a whole template, and the padding; one case = 50 consecutive k; non-trivial = the case contains a k >= 2. " +
+			"E: templates above 4096 bytes of N plain print tags with N distinct names, N = 100, 1000, 4000, 4100, 5000, 8000 (thorough also 16000, 20000; stages above 300 000 bytes left out), rendered one after the other in one process, for each of 6 name shapes (short, with underscores, mixed case, 63 / 64 / 65 bytes) x 3 tag styles ({{ n }}, {{n}}, {{- n -}}) x {same names in every stage, new names in every stage}; every tag must print the value of its own variable and the same tags cut into templates below 4096 bytes must print the same; " +
+			"then 5 everyday templates with names new to the process, bare and padded to every total of 4094..4098 (thorough 4090..4102), 1025, 20481, 65537 bytes by text in front, text behind and a comment between two constructs; one case = one such history",
 		Assumptions: []string{
 			"padding is inserted at segment boundaries only, never inside a verbatim body and never between a dashed delimiter and the whitespace it trims (nor between such a delimiter and that whitespace across comments)",
 			"the expected output of a padded template is derived from the same implementation's rendering of the unpadded template (below every threshold) with a 3-byte marker at the insertion points; the corpus model pins the unpadded rendering",
 			"for sources that fail, only the failure class (parse error / render error / panic) is compared, not the message",
 			"templates up to 300 000 bytes; larger size classes are not explored",
+			"part E: the expected output of a plain print tag is the value its name has in the context (string values without markup); the verdict of a case does not depend on what the worker process rendered before it",
 			"part D: the units begin and end with a non-whitespace byte or a delimiter, so no dash reaches from one copy into the next, the lead or the padding; the pools of the engine are emptied before every rendering by two forced garbage collections (sync.Pool semantics of the Go runtime) and the case runs on one processor",
 		},
 		QuickDeadline:    150,
@@ -518,12 +531,33 @@ func main() {
 			if t.Thorough() {
 				maxLen = 6
 			}
-			runSmall(t, 0, 4)
-			runPad(t)
-			runTagSeq(t, 5)
-			runRep(t)
-			runNames(t)
-			runSmall(t, 5, maxLen)
+			// C14_ONLY=ADE... restricts a run to some parts (development aid for measuring one part; never
+			// set by run.sh or the framework)
+			on := func(part string) bool {
+				only := os.Getenv("C14_ONLY")
+				return only == "" || strings.Contains(only, part)
+			}
+			if on("B") {
+				runSmall(t, 0, 4)
+			}
+			if on("A") {
+				runPad(t)
+			}
+			if on("C") {
+				runTagSeq(t, 5)
+			}
+			if on("D") {
+				runRep(t)
+			}
+			// E after D: the names that part E leaves in the engine's process-wide table make every forced
+			// garbage collection of part D four times as expensive (measured: D alone 57 s CPU, after E 195 s);
+			// E before the long tail of B, so that a deadline cuts B's tail and not E.
+			if on("E") {
+				runNames(t)
+			}
+			if on("B") {
+				runSmall(t, 5, maxLen)
+			}
 		},
 		Extra: func(tier string, cov map[string]interface{}) {
 			cov["total_lengths"] = sizes(tier == "thorough")
